@@ -734,8 +734,10 @@ class ServerProxy(XMLServerProxy):
         >>> # Here old headers are restored
         """
         self.__transport.push_headers(headers)
-        yield self
-        self.__transport.pop_headers(headers)
+        try:
+            yield self
+        finally:
+            self.__transport.pop_headers(headers)
 
 
 # ------------------------------------------------------------------------------
